@@ -386,6 +386,62 @@ def eagle_stage(c, judge):
           c.tie_break('eagle ' + what, {'param': p, 'value': w}, real, mval)
 
 
+def acquisition_stage(c, judge):
+  """The acquisition optimiser behind the GP designers (vectorised eagle strategy, as configured by
+  VizierGPBandit) run directly on cheap score functions over spaces with several categorical
+  parameters of DIFFERENT cardinality, integers and discretes; its best candidates are decoded by
+  `best_candidates_to_trials` (the GP designers' own path) and judged for membership.  Priors make
+  the mutation / categorical re-sampling path run from the first iteration."""
+  import jax
+  import jax.numpy as jnp
+  from vizier import pyvizier as vz
+  from vizier.pyvizier import converters
+  from vizier._src.algorithms.optimizers import eagle_strategy as es
+  from vizier._src.algorithms.optimizers import vectorized_base as vb
+  from vizier._src.jax import types
+  n = 4 if c.tier == 'quick' else 24
+  for i in range(n):
+    ncat = c.rng.choice([2, 2, 3])
+    sizes = c.rng.sample([2, 3, 4, 5, 7], ncat)
+    space = [{'name': 'k%d' % j, 't': 'C', 'cats': ['v%d' % v for v in range(sz)], 'sc': None} for j, sz in enumerate(sizes)]
+    space.append({'name': 'x', 't': 'D', 'lo': -1.0, 'hi': 3.0, 'sc': 'LIN'})
+    if c.rng.random() < 0.5:
+      space.append(cd.gen_integer(c.rng, True, 12)); space[-1]['name'] = 'n'
+    if c.rng.random() < 0.4:
+      space.append(cd.gen_discrete(c.rng, True)); space[-1]['name'] = 'd'
+    try:
+      problem = cd.build_problem(vz, space)
+      conv = converters.TrialToModelInputConverter.from_problem(problem)
+      opt = vb.VectorizedOptimizerFactory(strategy_factory=es.VectorizedEagleStrategyFactory(),
+                                          max_evaluations=2000, suggestion_batch_size=25)(conv)
+      w = jnp.asarray([c.rng.uniform(-1, 1) for _ in range(8)])
+      # half of the score functions increase with the category INDEX: an index beyond a parameter's
+      # own cardinality (but below the largest one) would be the optimum
+      up = 1.0 if i % 2 == 0 else 0.0
+
+      def score(x, seed=None, w=w, up=up):
+        cont, cat = x.continuous.padded_array, x.categorical.padded_array
+        catf = cat.astype(cont.dtype)
+        sc = jnp.sum(jnp.sin(3.0 * cont + w[0]) * w[1], axis=-1) + jnp.sum((1.0 - up) * jnp.cos(catf * w[2] + w[3]) + up * catf, axis=-1)
+        return sc.reshape(sc.shape[0], -1)[:, 0] if sc.ndim > 1 else sc
+      priors = []
+      for t in range(c.rng.choice([0, 3, 6])):
+        d = {}
+        for sp in space:
+          d[sp['name']] = (c.rng.choice(cd.feasible_values(sp)) if sp['t'] != 'D' else c.rng.uniform(sp['lo'], sp['hi']))
+        priors.append(vz.Trial(parameters=d))
+      pf = vb.trials_to_sorted_array(priors, conv)
+      count = c.rng.choice([1, 3, 8])
+      res = opt(score, count=count, prior_features=pf, seed=jax.random.PRNGKey(c.rng.randrange(1 << 30)))
+      trials = vb.best_candidates_to_trials(res, conv)
+    except Exception as e:  # pylint: disable=broad-except
+      judge.refuse('ACQUISITION', '%s: %s' % (type(e).__name__, e))
+      continue
+    c.traces += 1
+    for t in trials:
+      judge.add(space, t.parameters, 'ACQUISITION:vectorized-eagle', {'sizes': sizes, 'count': count, 'priors': len(priors)})
+
+
 def decode_stage(c, judge):
   """Out-of-range arrays through the array converters the designers use (the full tie is C15's)."""
   from vizier import pyvizier as vz
@@ -615,12 +671,13 @@ def run(c):
   sampling_stage(c, judge)
   eagle_stage(c, judge)
   decode_stage(c, judge)
+  acquisition_stage(c, judge)
   designers_stage(c, judge)
   service_stage(c, judge)
   judge.flush()
   c.coverage_extra['suggestions_judged_per_source'] = judge.produced
   c.coverage_extra['refusals_outside_service'] = {k: [len(v)] + sorted(set(v))[:2] for k, v in judge.refusals.items()}
-  for name in ('RANDOM', 'QUASI_RANDOM', 'GRID', 'SHUFFLED_GRID', 'NSGA2', 'EAGLE', 'SEED', 'random_sample', 'DECODE'):
+  for name in ('RANDOM', 'QUASI_RANDOM', 'GRID', 'SHUFFLED_GRID', 'NSGA2', 'EAGLE', 'SEED', 'random_sample', 'DECODE', 'ACQUISITION'):
     if judge.produced.get(name, 0) == 0:
       c.prop_fail('no-suggestions:' + name, '%s (used directly) never produced a suggestion: %s' % (name, judge.refusals.get(name, ['?'])[:1]), {'source': name})
   from vcheck import svc
